@@ -54,21 +54,22 @@ func (s Step) String() string {
 type Profile struct {
 	Targets        []string
 	MinOps, MaxOps int
-	PMulti         int // % of Sets spanning two or more targets
-	PPoison        int // % of Sets carrying a value the model plugin rejects
-	PEq            int // % of Sets using EQ values on /a/b, /a/c (cross-leaf constraint)
-	PDevReject     int // % of Sets carrying a value the device rejects
-	PDelete        int // % of operations that are deletes
-	PRollback      int // % of steps that are rollbacks
-	PEnv           int // % chance of an environment action after a step
-	PNoWait        int // % of Sets issued without waiting for the reply
-	PSync          int // % of Sets that are synchronous
-	PStartOffline  int // % chance that a target is offline at the start
-	PDevFault      int // % chance of a transient device fault burst after a step
-	PCrash         int // % chance that the scenario contains one crash
-	PSlowPlugin    int // % of model-plugin validations that stall for 5..40 ms (one target's validation much slower than another's)
-	PStoreFault    int // per-mille probability that a controller's store call fails with a transient error
-	PCreateFault   int // per-cent probability that a controller's proposal Create fails with a transient error (cuts a transaction's initialisation pass short between two targets)
+	PMulti         int  // % of Sets spanning two or more targets
+	PPoison        int  // % of Sets carrying a value the model plugin rejects
+	PEq            int  // % of Sets using EQ values on /a/b, /a/c (cross-leaf constraint)
+	PDevReject     int  // % of Sets carrying a value the device rejects
+	PDelete        int  // % of operations that are deletes
+	PRollback      int  // % of steps that are rollbacks
+	PEnv           int  // % chance of an environment action after a step
+	PNoWait        int  // % of Sets issued without waiting for the reply
+	PSync          int  // % of Sets that are synchronous
+	PStartOffline  int  // % chance that a target is offline at the start
+	PDevFault      int  // % chance of a transient device fault burst after a step
+	PCrash         int  // % chance that the scenario contains one crash
+	PSlowPlugin    int  // % of model-plugin validations that stall for 5..40 ms (one target's validation much slower than another's)
+	PStoreFault    int  // per-mille probability that a controller's store call fails with a transient error
+	PCreateFault   int  // per-cent probability that a controller's proposal Create fails with a transient error (cuts a transaction's initialisation pass short between two targets)
+	IdleCheck      bool // evaluate the fixed-point clause before the final connects (see Exec.IdleCheck)
 	AllowClash     bool
 	RejectCode     codes.Code // gRPC code the device answers a refused value with (default InvalidArgument)
 	Paths          string     // "basic" (few paths, many overwrites) | "rich"
